@@ -29,7 +29,7 @@ REAL = ['UARTSerializer', 'UARTDeserializer', 'ClockGenerationAndRecovery (Clock
 STUB = ['byte producer', 'byte consumer', 'software 8N1 receiver (oracle)']
 ASSUMPTIONS = ['consumer READY is never low for more than 3 bit times in a row (no flow control on a UART)',
                'bit period = 2*floor(ratio/2) system clocks, as the divider itself reports for odd ratios']
-PROBES = ['back_to_back', 'gap', 'phase', 'consumer_stall_while_waiting', 'odd_ratio', 'min_ratio', 'boundary_byte']
+PROBES = ['data_bus_not_8_bits', 'back_to_back', 'gap', 'phase', 'consumer_stall_while_waiting', 'odd_ratio', 'min_ratio', 'boundary_byte']
 
 
 def gen(rs, tier, index):
@@ -42,7 +42,13 @@ def gen(rs, tier, index):
         b = rng.choice([0x00, 0xFF, 0x55, 0xAA, 0x01, 0x80, 0x7F, 0xFE]) if rng.random() < 0.4 else rng.getrandbits(8)
         gap = 0 if rng.random() < 0.5 else rng.randint(1, 30 * P)
         data.append({'b': b, 'gap': gap})
-    return {'ratio': ratio, 'bytes': data, 'phase': rng.randint(0, 3 * P), 'p_ready': rng.choice([1.0, 0.9, 0.5, 0.2]),
+    # width of the producer's data bus on the serializer's v port: not always 8 (7-bit ASCII source; a word bus that
+    # carries the byte in its low bits, upper bits zero)
+    vw = rng.choice([8, 8, 8, 7, 12, 32])
+    if vw < 8:
+        for x in data:
+            x['b'] &= (1 << vw) - 1
+    return {'vw': vw, 'ratio': ratio, 'bytes': data, 'phase': rng.randint(0, 3 * P), 'p_ready': rng.choice([1.0, 0.9, 0.5, 0.2]),
             'cons_seed': rs.sub('cons'), 'perm_seed': rs.sub('perm')}
 
 
@@ -89,7 +95,9 @@ def run(scn, log, st):
     if ratio == 4:
         st.probe('min_ratio')
     hw = py4hw.HWSystem()
-    s_ready, s_valid, s_v = hw.wire('s_ready'), hw.wire('s_valid'), hw.wire('s_v', 8)
+    s_ready, s_valid, s_v = hw.wire('s_ready'), hw.wire('s_valid'), hw.wire('s_v', scn.get('vw', 8))
+    if scn.get('vw', 8) != 8:
+        st.probe('data_bus_not_8_bits')
     tx = hw.wire('tx')
     tx_pulse, rx_sample, desync = hw.wire('tx_clk_pulse'), hw.wire('rx_sample'), hw.wire('desync')
     d_ready, d_valid, d_v = hw.wire('d_ready'), hw.wire('d_valid'), hw.wire('d_v', 8)
@@ -180,6 +188,8 @@ def run(scn, log, st):
 
 def shrink(scn):
     yield from shrink_list(scn, 'bytes', 1)
+    if scn.get('vw', 8) > 8:
+        yield dict(scn, vw=8)
     if scn['phase']:
         yield dict(scn, phase=0)
     if scn['p_ready'] != 1.0:
